@@ -1458,6 +1458,149 @@ def hdmap_position_tampers(ctx, sc):
             yield "one-foreign-xpub@map", t
 
 
+# ---- a derivation record whose path length relative to the DECLARED xpub is at the edge
+# The re-derivation check reads `hdpub.traverse(ltrim_path(record path, depth of the declared xpub))`.  A record
+# whose path has exactly as many components as the xpub is deep names the account key itself (no child index below
+# the declared xpub): no wallet derives an address there, such a PSBT has to be refused - whatever key the record
+# carries, in particular when it carries the xpub's OWN key and the committed script is made of the account keys.
+EXTRA_BELOW = [3, 1, 4, 1]
+
+
+def _declared(sc):
+    """fingerprint -> (xpub_id, depth) of the declared cosigner xpubs (hdpubkey_map, else the global xpubs)"""
+    d = {xfp: (xid, depth) for xfp, xid, depth in sc[3]}
+    if not d:
+        d = {xfp: (xid, len(comps)) for xfp, comps, xid in sc[4]}
+    return d
+
+
+def own_key(xid):
+    """the public key inside a serialized xpub (its last 33 bytes)"""
+    return xid[-33:]
+
+
+def deep_wallet(ctx, kind, m, n, utxo):
+    """an honest wallet whose cosigner xpubs are declared one level deeper (m/45'/0, depth 2): the coins at
+    m/45'/0/j, the change at m/45'/0/7"""
+    r = ctx.rng
+    sc = honest(ctx, kind, m, n, 1, [r.randrange(600, 10 ** 7)], r.randrange(600, 10 ** 8), utxo=utxo)
+    c = _chg(sc)
+    sc[2][c] = change_output(kind, m, wallet_keys(n, 0, 7), sc[2][c][0])
+    hdmap = []
+    for k in range(n):
+        xfp, acct, xid = cosigner(k)
+        ch = acct.child(0)
+        if ch.depth != 2:
+            raise AssertionError("harness: depth of the deeper xpub")
+        xid2 = ch.raw_serialize()
+        _XPUBS.setdefault(xid2, ch)
+        hdmap.append([xfp, xid2, 2])
+    return with_table([sc[0], sc[1], sc[2], hdmap, [], []])
+
+
+def edge_path_tampers(ctx, sc, where):
+    """(kind, scenario, accepted): at the location `where` ONE record (position g; also ALL records) has a path with
+    exactly depth / depth-1 / depth+many components relative to its declared xpub, with the xpub's own key, the
+    genuine key or the key really derived at the stated path; records in rotated orders.  accepted: the record
+    is a key derived BELOW the xpub at the stated path and in the committed script (an honest, only deeper, wallet
+    key) - everything else has to be refused."""
+    m, n = _quorum(sc)
+    tag = "%s%d" % where
+    holder, slot = _loc(sc, where)
+    genuine = [list(p) for p in holder[slot]]
+    decl = _declared(sc)
+    rot = _orders(n, False)
+
+    def rec(p, key=None, path=None):
+        q = list(p)
+        if key is not None:
+            q[0] = q[1] = key
+        if path is not None:
+            q[3] = list(path)
+        return q
+
+    def make(g, what):
+        p = genuine[g]
+        xid, depth = decl[p[2]]
+        if what == "exact-depth-own-key":
+            return rec(p, own_key(xid), p[3][:depth]), True
+        if what == "exact-depth-genuine-key":
+            return rec(p, None, p[3][:depth]), False
+        if what == "shorter-genuine-key":
+            return rec(p, None, p[3][:depth - 1]), False
+        if what == "shorter-own-key":
+            return rec(p, own_key(xid), p[3][:depth - 1]), True
+        if what == "longer-genuine-key":
+            return rec(p, None, p[3] + EXTRA_BELOW), False
+        if what == "longer-own-key":
+            return rec(p, own_key(xid), p[3] + EXTRA_BELOW), True
+        if what == "longer-derived-key":
+            return rec(p, derive_traverse(xid, p[3][depth:] + EXTRA_BELOW), p[3] + EXTRA_BELOW), True
+        raise AssertionError(what)
+
+    def scen(pubs, rescript, perm):
+        t = _copy.deepcopy(sc)
+        if rescript:
+            _loc_set_script(t, where, msig_cmds(m, [p[1] for p in pubs]))
+        h, s = _loc(t, where)
+        h[s] = [pubs[k] for k in perm]
+        return t
+
+    for what in ("exact-depth-own-key", "exact-depth-genuine-key", "shorter-genuine-key", "shorter-own-key",
+                 "longer-genuine-key", "longer-own-key", "longer-derived-key"):
+        ok = what == "longer-derived-key"
+        for g in range(n):
+            pubs = [list(p) for p in genuine]
+            pubs[g], rescript = make(g, what)
+            for perm in (rot if what == "exact-depth-own-key" else [rot[g % len(rot)]]):
+                yield "one-%s@%s" % (what, tag), scen(pubs, rescript, perm), ok
+        # every record so (the script of the account keys themselves, stated path = the xpubs' own path)
+        if what in ("exact-depth-own-key", "exact-depth-genuine-key", "longer-derived-key"):
+            made = [make(g, what) for g in range(n)]
+            for perm in (rot if what == "exact-depth-own-key" else rot[:1]):
+                yield "all-%s@%s" % (what, tag), scen([x[0] for x in made], made[0][1], perm), ok
+
+
+# the TEXT of a record's path (NamedPublicKey.root_path, a str attribute of a parsed record) edited in place: empty
+# components cannot be written in a binary record, but a path text can carry them (double slash, trailing slash)
+def path_texts(comps, depth):
+    """(text, strict) for a record whose binary path is comps under an xpub of that depth.  strict: the text
+    with its empty components dropped has NO component below the xpub (must be refused); otherwise it is the
+    honest path written with empty components (refused, or read leniently as the honest path)."""
+    def txt(cs):
+        return path_str(cs)
+    head, tail = comps[:depth], comps[depth:]
+    return [(txt(head) + "/", True), (txt(head) + "//", True), (txt(head) + "/ ", True),
+            (txt(head) + "/" + txt(tail)[1:], False),          # m/45'//0/3
+            (txt(comps) + "/", False),                         # m/45'/0/3/
+            (txt(comps[:-1]) + "/" + txt(comps[-1:])[1:], False),   # m/45'/0//3
+            ("m/" + txt(comps)[1:], False)]                    # m//45'/0/3
+
+
+def p_path_text_edge(sc, loc, k, key, text, strict):
+    """The rebuilt objects of scenario sc; the path TEXT of one derivation record (location loc/k, dict key `key`) is
+    replaced by `text`, which contains an empty component.  strict = 1: the text names no component below the
+    declared xpub - must be refused.  strict = 0: the text is the record's genuine path with an empty component -
+    refused, or summarised exactly as the honest PSBT."""
+    with _memo_mul():
+        p, hmap = build(sc)
+        holder = (p.psbt_ins if loc == 0 else p.psbt_outs)[k]
+        holder.named_pubs[key].root_path = text.decode()
+        try:
+            d = summary(p.describe_basic_multisig(hdpubkey_map=hmap))
+        except AssertionError:
+            raise
+        except Exception:  # noqa
+            return None
+    got = [d[0], d[1], d[3], d[4], [1 if o[1] else 0 for o in d[9]]]
+    if strict:
+        return "record with path text %r (no component below the declared xpub) was summarised: fee=%d in=%d " \
+               "spend=%d change=%d flags=%s" % ((text.decode(),) + tuple(got))
+    if got != honest_expect(sc)[0]:
+        return "path text %r: summary %r, honest summary %r" % (text.decode(), got, honest_expect(sc)[0])
+    return None
+
+
 def input_position_tampers(ctx, sc):
     """ONE input of several is wrong (UTXO, amount, script, threshold, records), at every input position"""
     kind = _kind(sc)
@@ -1555,7 +1698,7 @@ PROPS = {"tamper_rejected": p_tamper_rejected, "honest_summary": p_honest_summar
          "rebuild_same": p_rebuild_same, "describe_reuse": p_describe_reuse,
          "builder_crosschecks": p_builder_crosschecks, "bytes_review": p_bytes_review,
          "position_rejected": p_position_rejected, "order_summary": p_order_summary,
-         "default_map": p_default_map}
+         "default_map": p_default_map, "path_text_edge": p_path_text_edge}
 
 # tamperings that the implementation is KNOWN to summarise (findings/C11.json); everything else that is
 # accepted is a violation.  The structural test ties the key to the shape of the PSBT, not only to the label.
@@ -1590,7 +1733,11 @@ RULE = ("Wallets: every 1 <= m <= n <= 3 (quick) / 4 (thorough), P2SH built by p
         "with one cross-checked datum altered (must raise); the same arguments and further variants (payment to the "
         "wallet's own input script, change without path_dict, the same outpoint twice, duplicate fingerprint, "
         "threshold 0 / n+1, an extra record, a record with a wrong depth, an index out of range) are correspondence "
-        "cases for the builder model (op create_psbt: the returned PSBT object field by field, or the refusal).")
+        "cases for the builder model (op create_psbt: the returned PSBT object field by field, or the refusal).  "
+        "Derivation records whose path length relative to the declared xpub (depth 1 and depth 2) is at the edge - "
+        "exactly depth components (the xpub's own key / another key; one record at every position, all records), "
+        "depth-1, depth+4 (genuine, own and really derived key), path texts with an empty component - for inputs and "
+        "outputs, P2SH and P2WSH: refused unless the key is derived below the xpub at the stated path.")
 TRUSTED = ["hashlib (sha256, ripemd160) — hash160/sha256 are universally quantified functions in the theorems",
            "HDPublicKey.child/traverse (C08) — `derive` is an abstract function in the theorems; the correspondence "
            "feeds the model the implementation's own derivation results as a lookup table",
@@ -1703,6 +1850,43 @@ def position_cases(ctx):
             yield ("corr", "honest_spec", [t, spec_m(t)])
         yield ("prop", "bytes_review", [r_psbt(t), t[0], t[3], []])
 
+    def emit_ok(kind, t, m, n):
+        t = with_table(t)
+        ctx.label("edge-path accepted " + kind.split("@")[0])
+        yield ("prop", "order_summary", [t, m, n])
+        yield ("corr", "describe", [t])
+        if t[3]:
+            yield ("corr", "honest_spec", [t, m])
+        yield ("prop", "bytes_review", [r_psbt(t), t[0], t[3], honest_expect(t)])
+
+    def edge_cases(sc, m, n, locs, texts):
+        """a record whose path length relative to the declared xpub is at the edge (see edge_path_tampers)"""
+        decl = _declared(sc)
+        for where in locs:
+            for k, t, ok in edge_path_tampers(ctx, sc, where):
+                if ok:
+                    yield from emit_ok(k, t, m, n)
+                else:
+                    yield from emit(k, t, "edge-path")
+                if texts and t[3] and k.startswith("one-exact-depth-own-key"):
+                    # the same record with an empty component written after the xpub's own path
+                    h, s = _loc(t, where)
+                    for p in h[s]:
+                        xid, depth = decl[p[2]]
+                        if p[1] == own_key(xid):
+                            for text, strict in path_texts(p[3] + [0], depth)[:3]:
+                                ctx.label("edge-path text no-component-below-xpub")
+                                yield ("prop", "path_text_edge", [with_table(t), 0 if where[0] == "in" else 1,
+                                                                  where[1], p[0], text.encode(), 1])
+            if texts and sc[3]:
+                h, s = _loc(sc, where)
+                for p in h[s]:
+                    xid, depth = decl[p[2]]
+                    for text, strict in path_texts(p[3], depth):
+                        ctx.label("edge-path text " + ("no-component-below-xpub" if strict else "empty-component"))
+                        yield ("prop", "path_text_edge", [sc, 0 if where[0] == "in" else 1, where[1], p[0],
+                                                          text.encode(), 1 if strict else 0])
+
     last = None
     for wi, (m, n, kind, utxo, ck, n_in, full) in enumerate(wallets):
         last = sc if wi else None
@@ -1730,6 +1914,17 @@ def position_cases(ctx):
         if wi < 2 or not quick:
             for k, t in hdmap_position_tampers(ctx, sc):
                 yield from emit(k, t, "position")
+        yield from edge_cases(sc, m, n, locs, wi < 2)
+    # cosigner xpubs declared one level deeper (depth 2): "shorter than the xpub" is then a non-empty path
+    for kind, utxo in (("p2wsh", "wit"), ("p2sh", "nonwit")) + ((("p2wsh", "both"),) if not quick else ()):
+        for m, n in ((2, 3),) if quick else ((2, 3), (1, 2)):
+            sc = deep_wallet(ctx, kind, m, n, utxo)
+            ctx.label("edge-path wallet %d-of-%d %s/%s xpubs at depth 2" % (m, n, kind, utxo))
+            yield ("prop", "order_summary", [sc, m, n])
+            yield ("corr", "describe", [sc])
+            yield ("corr", "honest_spec", [sc, m])
+            yield ("prop", "bytes_review", [r_psbt(sc), sc[0], sc[3], honest_expect(sc)])
+            yield from edge_cases(sc, m, n, [("out", _chg(sc)), ("in", 0)], True)
     # one input of three / one output of three
     for kind, utxo in (("p2wsh", "both"), ("p2sh", "nonwit"), ("p2wsh", "wit")):
         sc = honest(ctx, kind, 2, 3, 3, [r.randrange(600, 10 ** 7), r.randrange(600, 10 ** 7)],
